@@ -84,6 +84,19 @@ func c06Build(c *choice.Stream) *c06Case {
 		if _, err := refproto.DecodeBlock(rr, rev); err != nil {
 			panic(fmt.Sprintf("reference cannot re-read its own block: %v", err))
 		}
+		var warm []byte
+		if c.Bool("reuse.targets", 1, 2) {
+			wblk := DrawBlock(c, cols, c.Range("warm.rows", 1, 5))
+			for i := range wblk.Cols {
+				wblk.Cols[i].Type = blk.Cols[i].Type
+			}
+			var ww refproto.W
+			if err := refproto.EncodeBlock(&ww, rev, wblk); err != nil {
+				panic(err)
+			}
+			warm = ww.B
+			cs.desc["reused_targets"] = true
+		}
 		auto := kind == "block-auto"
 		if auto {
 			for _, bc := range blk.Cols {
@@ -112,8 +125,19 @@ func c06Build(c *choice.Stream) *c06Case {
 				return b.Rows, out, nil, nil
 			}
 			typed, raw := ResultTargets(cols)
+			if len(warm) > 0 {
+				// result columns are reused across blocks: fill them from a valid block first
+				var wb proto.Block
+				if err := wb.DecodeBlock(proto.NewReader(&simio.FaultyReader{Data: warm}), rev, typed); err != nil {
+					panic(fmt.Sprintf("valid warm-up block rejected: %v", err))
+				}
+			}
 			if err := b.DecodeBlock(rd, rev, typed); err != nil {
 				return 0, nil, nil, err
+			}
+			if b.Columns == 0 {
+				// the empty end marker carries no columns: the targets are not part of it
+				return b.Rows, nil, nil, nil
 			}
 			var rts []*refproto.Type
 			for _, x := range cols {
